@@ -80,11 +80,14 @@ func refDecode(b []byte) (keys, vals []uint64, links []string, ok bool) {
 		links = append(links, string(b[p:p+int(l)]))
 		pos = p + int(l)
 	}
-	if pos != len(b) {
+	if pos != len(b) && !refDecodeAllowTrailing {
 		return nil, nil, nil, false
 	}
 	return keys, vals, links, true
 }
+
+// refDecodeAllowTrailing: accept bytes after a complete node (what a lenient reader does).
+var refDecodeAllowTrailing = false
 
 // refEncode is the published layout: uvarint count, then uvarint length + body
 // per element, for keys, values, links; the link list is empty when every
